@@ -5,10 +5,11 @@
 \* "" when absent.
 \* Clauses are interpreted one by one; the well-formedness both engines insist on (a generated column has no default) is judged at the
 \* end of a statement, because PostgreSQL runs the clauses of one ALTER TABLE in passes, not in the order they are written.
-EXTENDS Naturals, FiniteSets, TLC
+EXTENDS Naturals, FiniteSets, Sequences, TLC
 CONSTANTS Names, Types, Dflts, Gens, Comments      \* universes explored by Next (the trace specification takes values from the statements)
 VARIABLES cols,     \* the columns
-          idxs      \* the indexes: set of <<name, unique ("t" / "f"), key parts as written, e.g. "c,x desc">>
+          idxs      \* the indexes: set of <<name, unique ("t" / "f"), key parts, kind>>, key parts = sequence of <<column, "asc" | "desc">>,
+                    \* kind = "c" for an index owned by a UNIQUE constraint of the same name (PostgreSQL), "i" otherwise
 vars == <<cols, idxs>>
 Has(c) == \E k \in cols : k[1] = c
 Col(c) == CHOOSE k \in cols : k[1] = c
@@ -19,8 +20,14 @@ NamesUnique == \A j, k \in cols : j[1] = k[1] => j = k
 
 \* ADD COLUMN c <definition>
 AddColumn(k) == ~Has(k[1]) /\ cols' = cols \cup {k} /\ UNCHANGED idxs
-\* DROP COLUMN c (a table keeps at least one column)
-DropColumn(c) == Has(c) /\ Cardinality(cols) > 1 /\ cols' = {k \in cols : k[1] # c} /\ UNCHANGED idxs
+\* DROP COLUMN c (a table keeps at least one column).  What happens to the indexes that use the column depends on the engine:
+\* MySQL takes the column out of every index and removes an index that has no column left; PostgreSQL drops every index that uses it.
+PartCols(k) == { k[3][i][1] : i \in DOMAIN k[3] }
+Shrunk(k, c) == SelectSeq(k[3], LAMBDA p : p[1] # c)
+DropColumnMy(c) == /\ Has(c) /\ Cardinality(cols) > 1 /\ cols' = {k \in cols : k[1] # c}
+                   /\ idxs' = { <<k[1], k[2], Shrunk(k, c), k[4]>> : k \in {j \in idxs : Shrunk(j, c) # <<>>} }
+DropColumnPG(c) == /\ Has(c) /\ Cardinality(cols) > 1 /\ cols' = {k \in cols : k[1] # c}
+                   /\ idxs' = {k \in idxs : c \notin PartCols(k)}
 \* MySQL: MODIFY COLUMN c <definition> replaces the whole definition
 Redefine(k) == Has(k[1]) /\ Put(k)
 \* PostgreSQL: ALTER COLUMN c TYPE ty | SET NOT NULL | DROP NOT NULL | SET DEFAULT x | DROP DEFAULT | DROP EXPRESSION
@@ -34,23 +41,33 @@ SetComment(c, x) == Has(c) /\ LET k == Col(c) IN Put(<<c, k[2], k[3], k[4], k[5]
 \* only a generated column has an expression to drop; nothing but dropping and adding the column brings one back
 DropExpression(c) == Has(c) /\ Col(c)[5] # "" /\ LET k == Col(c) IN Put(<<c, k[2], k[3], k[4], "", k[6]>>)
 
-\* ADD [UNIQUE] INDEX n (parts) / CREATE [UNIQUE] INDEX n ON t (parts): a fresh name, at least one key part
+\* ADD [UNIQUE] INDEX n (parts) / CREATE [UNIQUE] INDEX n ON t (parts): a fresh name, at least one key part, over existing columns
 HasIdx(n) == \E k \in idxs : k[1] = n
-AddIndex(k) == ~HasIdx(k[1]) /\ k[3] # "" /\ idxs' = idxs \cup {k} /\ UNCHANGED cols
-\* DROP INDEX n: modifying an index is a drop followed by an add
-DropIndex(n) == HasIdx(n) /\ idxs' = {k \in idxs : k[1] # n} /\ UNCHANGED cols
+AddIndex(k) == /\ ~HasIdx(k[1]) /\ k[3] # <<>> /\ PartCols(k) \subseteq {c[1] : c \in cols} /\ k[4] = "i"
+               /\ idxs' = idxs \cup {k} /\ UNCHANGED cols
+\* DROP INDEX n: modifying an index is a drop followed by an add; an index that a constraint owns cannot be dropped this way
+DropIndex(n) == (\E k \in idxs : k[1] = n /\ k[4] = "i") /\ idxs' = {k \in idxs : k[1] # n} /\ UNCHANGED cols
+\* PostgreSQL: ALTER TABLE t ADD CONSTRAINT n UNIQUE (columns) creates the constraint and its index; DROP CONSTRAINT n removes both
+AddConstraint(k) == /\ ~HasIdx(k[1]) /\ k[3] # <<>> /\ PartCols(k) \subseteq {c[1] : c \in cols} /\ k[2] = "t" /\ k[4] = "c"
+                    /\ idxs' = idxs \cup {k} /\ UNCHANGED cols
+DropConstraint(n) == (\E k \in idxs : k[1] = n /\ k[4] = "c") /\ idxs' = {k \in idxs : k[1] # n} /\ UNCHANGED cols
 IdxNamesUnique == \A j, k \in idxs : j[1] = k[1] => j = k
 
-IdxDefs == {"i", "j"} \X {"t", "f"} \X {"c", "c,x desc"}
+IdxDefs == {"i", "j"} \X {"t", "f"} \X { <<<<"c", "asc">>>>, <<<<"c", "asc">>, <<"x", "desc">>>>, <<<<"x", "asc">>>> } \X {"i", "c"}
+\* an index never mentions a column the table does not have
+IdxColumnsExist == \A k \in idxs : PartCols(k) \subseteq {c[1] : c \in cols} /\ k[3] # <<>>
+\* a constraint-owned index is unique
+ConstraintsUnique == \A k \in idxs : k[4] = "c" => k[2] = "t"
 Defs == { k \in Names \X Types \X {"t", "f"} \X Dflts \X Gens \X Comments : WellFormedCol(k) }
 Init == (\E k \in Defs : cols = {k}) /\ idxs = {}
 IdxNext == (\E k \in IdxDefs : AddIndex(k)) \/ (\E n \in {"i", "j"} : DropIndex(n))
+ConstraintNext == (\E k \in IdxDefs : AddConstraint(k)) \/ (\E n \in {"i", "j"} : DropConstraint(n))
 AlterClauses == \/ \E c \in Names, ty \in Types : SetType(c, ty)
                 \/ \E c \in Names : SetNotNull(c) \/ DropNotNull(c) \/ DropDefault(c) \/ DropExpression(c)
                 \/ \E c \in Names, x \in Dflts : SetDefault(c, x)
                 \/ \E c \in Names, x \in Comments : SetComment(c, x)
-PGNext == AlterClauses \/ (\E k \in Defs : AddColumn(k)) \/ (\E c \in Names : DropColumn(c)) \/ IdxNext
-MyNext == (\E k \in Defs : AddColumn(k) \/ Redefine(k)) \/ (\E c \in Names : DropColumn(c)) \/ IdxNext
+PGNext == AlterClauses \/ (\E k \in Defs : AddColumn(k)) \/ (\E c \in Names : DropColumnPG(c)) \/ IdxNext \/ ConstraintNext
+MyNext == (\E k \in Defs : AddColumn(k) \/ Redefine(k)) \/ (\E c \in Names : DropColumnMy(c)) \/ IdxNext
 PGSpec == Init /\ [][PGNext]_vars
 MySpec == Init /\ [][MyNext]_vars
 \* ---- properties of the model ---------------------------------------------------------------------------
